@@ -8,34 +8,39 @@ EXTENDS Ndl, Json
 CONSTANT MaxChanges
 VARIABLE p       \* the chosen value of every variation point
 
-Doms == [leafPortsK |-> {2, 1, 3, 0}, leaf2Inherit |-> {"Leaf", "", "Nope", "Leaf2"}, boxArg |-> {"Leaf2", "Leaf", "Other", "Box", "Nope"},
+Doms == [leafPortsK |-> {2, 1, 3, 0}, leaf2Inherit |-> {"Leaf", "", "Nope", "Leaf2", "Box"}, boxArg |-> {"Leaf2", "Leaf", "Other", "Box", "Nope"},
          boxArgsN |-> {1, 0, 2}, midLsK |-> {2, 1, 0, Atom}, nIdx |-> {1, 0, 2}, connGate |-> {"port", "nogate"}, connSub |-> {"m", "nosub"},
-         link |-> {"L2", "", "L9", "L3"}, entry |-> {"Main", "Nope", "Mid"}, dupGen |-> {FALSE, TRUE}, selfConn |-> {FALSE, TRUE},
+         link |-> {"L2", "", "L9", "L3"}, entry |-> {"Main", "Nope", "Mid", "Box"}, dupGen |-> {FALSE, TRUE}, selfConn |-> {FALSE, TRUE},
          nK |-> {2, 3, 0}, sideIdx |-> {0, 1, 2, Atom}, boxInArgs |-> {0, 1},
-         gArg |-> {"Iface", "ImplMore", "ImplLess", "ImplGateLess", "ImplWrongSub"}, leaf1K |-> {Atom, 1}, fwdGen |-> {FALSE, TRUE}]
+         gArg |-> {"Iface", "ImplMore", "ImplLess", "ImplGateLess", "ImplWrongSub"}, leaf1K |-> {Atom, 1}, fwdGen |-> {FALSE, TRUE},
+         redecl |-> {"no", "gate", "samegate", "sub"}, pairA |-> {"Leaf", "Leaf2"}]
 Base == [leafPortsK |-> 2, leaf2Inherit |-> "Leaf", boxArg |-> "Leaf2", boxArgsN |-> 1, midLsK |-> 2, nIdx |-> 1, connGate |-> "port",
          connSub |-> "m", link |-> "L2", entry |-> "Main", dupGen |-> FALSE, selfConn |-> FALSE, nK |-> 2, sideIdx |-> 0, boxInArgs |-> 0,
-         gArg |-> "Iface", leaf1K |-> Atom, fwdGen |-> FALSE]
+         gArg |-> "Iface", leaf1K |-> Atom, fwdGen |-> FALSE, redecl |-> "no", pairA |-> "Leaf"]
 Pts == DOMAIN Base
 Alt(f) == Doms[f] \ {Base[f]}
 (* the base description and every description that differs from it in at most MaxChanges (<= 3) variation points *)
-One == UNION {{[Base EXCEPT ![f] = v] : v \in Alt(f)} : f \in Pts}
-Two == UNION {{[Base EXCEPT ![f] = v, ![g] = w] : v \in Alt(f), w \in Alt(g)} : <<f, g>> \in {x \in Pts \X Pts : x[1] # x[2]}}
-Three == UNION {{[Base EXCEPT ![x[1]] = u, ![x[2]] = v, ![x[3]] = w] : u \in Alt(x[1]), v \in Alt(x[2]), w \in Alt(x[3])}
+One(dummy) == UNION {{[Base EXCEPT ![f] = v] : v \in Alt(f)} : f \in Pts}
+Two(dummy) == UNION {{[Base EXCEPT ![f] = v, ![g] = w] : v \in Alt(f), w \in Alt(g)} : <<f, g>> \in {x \in Pts \X Pts : x[1] # x[2]}}
+Three(dummy) == UNION {{[Base EXCEPT ![x[1]] = u, ![x[2]] = v, ![x[3]] = w] : u \in Alt(x[1]), v \in Alt(x[2]), w \in Alt(x[3])}
                   : x \in {y \in Pts \X Pts \X Pts : y[1] # y[2] /\ y[1] # y[3] /\ y[2] # y[3]}}
-Variants == {Base} \cup (IF MaxChanges >= 1 THEN One ELSE {}) \cup (IF MaxChanges >= 2 THEN Two ELSE {}) \cup (IF MaxChanges >= 3 THEN Three ELSE {})
+(* operators with a dummy parameter: TLC evaluates zero-arity definitions eagerly at start-up *)
+Variants(n) == {Base} \cup (IF n >= 1 THEN One(0) ELSE {}) \cup (IF n >= 2 THEN Two(0) ELSE {}) \cup (IF n >= 3 THEN Three(0) ELSE {})
 
 DefOf(q) ==
   [entry |-> q.entry,
    links |-> {"L1", "L2", "L3"},
    mods |-> [
      Leaf  |-> Mod(<<>>, "", <<F("port", Atom), F("ports", q.leafPortsK)>>, <<>>, <<>>),
-     Leaf2 |-> Mod(<<>>, q.leaf2Inherit, <<F("extra", Atom)>>, <<>>, <<>>),
+     (* Leaf2 may declare an inherited gate again: with another size (an error) or identically (harmless) *)
+     Leaf2 |-> Mod(<<>>, q.leaf2Inherit, <<F("extra", Atom)>> \o (IF q.redecl = "gate" THEN <<F("ports", 5)>> ELSE IF q.redecl = "samegate" THEN <<F("port", Atom)>> ELSE <<>>), <<>>, <<>>),
      Other |-> Mod(<<>>, "", <<F("zzz", Atom)>>, <<>>, <<>>),
      (* an interface with a submodule, an implementation that extends it (inherits, adds a submodule), one that lacks *)
      (* the submodule and one that lacks the gate; GBox is generic over the interface and wires into the submodule    *)
      Iface |-> Mod(<<>>, "", <<F("p", Atom)>>, <<Sub("inner", Atom, "Leaf", <<>>)>>, <<>>),
-     ImplMore |-> Mod(<<>>, "Iface", <<F("q", Atom)>>, <<Sub("more", Atom, "Leaf", <<>>)>>, <<>>),
+     ImplMore |-> Mod(<<>>, "Iface", <<F("q", Atom)>>, <<Sub("more", Atom, "Leaf", <<>>)>> \o (IF q.redecl = "sub" THEN <<Sub("inner", Atom, "Leaf", <<>>)>> ELSE <<>>), <<>>),
+     (* two bindings, the second one named like a global module: Pair(Leaf2, Leaf) must give left = Leaf2, right = Leaf *)
+     Pair  |-> Mod(<<Gen("t", "Leaf"), Gen("Leaf2", "Leaf")>>, "", <<>>, <<Sub("left", Atom, "t", <<>>), Sub("right", Atom, "Leaf2", <<>>)>>, <<>>),
      ImplLess |-> Mod(<<>>, "", <<F("p", Atom)>>, <<>>, <<>>),
      ImplGateLess |-> Mod(<<>>, "", <<F("q", Atom)>>, <<Sub("inner", Atom, "Leaf", <<>>)>>, <<>>),
      ImplWrongSub |-> Mod(<<>>, "", <<F("p", Atom)>>, <<Sub("inner", Atom, "Other", <<>>)>>, <<>>),   \* same submodule name, other type
@@ -55,13 +60,14 @@ DefOf(q) ==
                      Sub("b", Atom, "Box", CASE q.boxArgsN = 1 -> <<q.boxArg>> [] q.boxArgsN = 0 -> <<>> [] OTHER -> <<q.boxArg, "Leaf">>),
                      Sub("n", q.nK, "Leaf", <<>>),
                      Sub("g", Atom, "GBox", <<q.gArg>>),
+                     Sub("pr", Atom, "Pair", <<q.pairA, "Leaf">>),
                      Sub("one", q.leaf1K, "Leaf", <<>>)>>,
                    <<Con(<<F("n", 0), F(q.connGate, Atom)>>, <<F("n", q.nIdx), F("port", Atom)>>, q.link),
                      Con(<<F("b", Atom), F("up", Atom)>>, <<F(q.connSub, Atom), F("l", Atom), F("port", Atom)>>, "")>>
                    \o (IF q.selfConn THEN <<Con(<<F("n", 0), F("ports", 1)>>, <<F("n", 0), F("ports", 1)>>, "")>> ELSE <<>>))
    ]]
 
-Init == p \in Variants
+Init == p \in Variants(MaxChanges)
 Next == UNCHANGED p
 Spec == Init /\ [][Next]_p
 Emit == PrintT(<<"REPLAY", ToJson([p |-> p, def |-> DefOf(p), elab |-> Elab(DefOf(p))])>>)
